@@ -161,6 +161,12 @@ def invalid_cases():
     out.append(("ics", "begin-without-end", b"BEGIN:VCALENDAR\r\nVERSION:2.0\r\nBEGIN:VEVENT\r\nUID:x\r\nSUMMARY:x\r\n"))
     out.append(("ics", "vcard-as-calendar", make_vcf(9001, [])))
     out.append(("vcf", "calendar-as-vcard", make_ics(9001, [])))
+    # the same media types spelled differently (media types are case-insensitive; white space around ';' is allowed)
+    for sp in ("TEXT/CALENDAR", "Text/Calendar; charset=utf-8", "text/calendar ; charset=utf-8", "text/calendar;charset=UTF-8", " text/calendar"):
+        out.append(("ics", "ct[%s]arbitrary-text" % sp, b"hello world\r\n"))
+        out.append(("ics", "ct[%s]begin-without-end" % sp, b"BEGIN:VCALENDAR\r\nVERSION:2.0\r\nBEGIN:VEVENT\r\nUID:x\r\nSUMMARY:x\r\n"))
+    for sp in ("TEXT/VCARD", "Text/vCard; charset=utf-8", "text/vcard ; charset=utf-8"):
+        out.append(("vcf", "ct[%s]card-without-begin-end" % sp, b"VERSION:3.0\r\nFN:Jo\r\nN:Doe;Jo;;;\r\n"))
     return out
 
 
@@ -266,6 +272,9 @@ def _group(args):
                 coll = "cal" if typ == "ics" else "ab"
                 name = "inv.%s" % typ
                 ct = B.CT_ICS if typ == "ics" else B.CT_VCF
+                spelled = None
+                if label.startswith("ct["):
+                    spelled = ct = label[3:label.index("]")]
                 before = (s.listing(coll), dir_listing(s.root, coll) if tree else None, s.audit_tag(coll))
                 r1 = s.req("PUT", s.url(coll, name), {"Content-Type": ct}, body)
                 st1 = dav.effective_status(r1)
@@ -284,6 +293,8 @@ def _group(args):
                     cls = "control-char-in-multi-component-object"
                 elif "control-char" in cls:
                     cls = cls.split("-char")[0] + "-char"
+                if spelled:
+                    cls = "media-type-spelled-differently"
                 if retry:
                     cls += ":accepted-when-retried"
                 stats["outcomes"].add(("invalid", typ, cls, st1))
